@@ -9,6 +9,8 @@ M2  one implementation test per edge of the state graph: reach the source state 
     Private cache attributes are never read."""
 import random
 
+import numpy as np
+
 from .. import gmm_machine_model as gm
 from ..common import key, pin_repo
 
@@ -70,5 +72,64 @@ def run(ck):
                     ck.sample({"mechanism": "M2", "trainer": trainer, "path": [o["name"] for o in ops],
                                "operation": e["o"]["name"], "verdict": "ok"})
     ck.exhaustive = True
+    trained_machines(ck, em, rng, 25 if quick else 300)
     for d in DEVS:
         gm.model_run(ck, "deviation:" + d, 2, 1, True, dev=[d], expect_violation=True, export=False, props=[])
+
+
+def trained_machines(ck, em, rng, count):
+    """FreshEquivalent on machines whose parameters were produced by the library itself: ML and MAP machines
+    (relevance-factor adaptation, every update switch, data that sit on a rare component so that the adapted weights
+    need renormalising) after one or two EM steps through fit() and through the module-level m_step, their deep
+    copies and pickles.  The reference is the mixture density of the VISIBLE parameters."""
+    import copy
+    import pickle
+    from bob.learn.em.gmm import m_step
+    from ..gmm_machine_model import oracle_ll
+    for i in range(count):
+        seed = rng.randrange(10 ** 6)
+        r = np.random.RandomState(seed)
+        C, D = int(r.randint(2, 5)), int(r.randint(1, 4))
+        prior = em.GMMMachine(C)
+        w = r.uniform(0.05, 1, size=C)
+        w[0] *= 0.02                                   # a rare component ...
+        prior.weights = w / w.sum()
+        prior.means = r.normal(size=(C, D)) * 3
+        prior.variances = r.uniform(0.5, 2, size=(C, D))
+        X = np.asarray(prior.means)[0] + r.normal(size=(int(r.randint(8, 40)), D))      # ... on which the data sit
+        sw = dict(update_means=bool(r.randint(0, 2)), update_variances=bool(r.randint(0, 2)), update_weights=True)
+        trainer = "map" if i % 3 else "ml"
+        if trainer == "map":
+            m = em.GMMMachine(C, trainer="map", ubm=prior, map_relevance_factor=float(r.choice([0.5, 4.0, 16.0])),
+                              max_fitting_steps=int(r.randint(1, 3)), convergence_threshold=None, **sw)
+        else:
+            m = em.GMMMachine(C, max_fitting_steps=int(r.randint(1, 3)), convergence_threshold=None, **sw)
+            m.weights, m.means, m.variances = np.array(prior.weights), np.array(prior.means) + 0.3, np.array(prior.variances)
+        how = "fit"
+        if i % 2:
+            m.fit(X)
+        else:
+            how = "m_step"
+            if trainer == "map":
+                m.initialize_gaussians()
+            m_step([m.acc_stats(X[: len(X) // 2]), m.acc_stats(X[len(X) // 2:])], m)
+        probes = np.concatenate([X[:3], np.asarray(prior.means)[-1:] + 0.5, np.asarray(prior.means)[:1] + 25.0])
+        ck.replayed += 1
+        ck.seen(["trained", seed])
+        for label, obj in (("the machine", m), ("its deep copy", copy.deepcopy(m)), ("its pickle", pickle.loads(pickle.dumps(m)))):
+            vis = [np.asarray(getattr(obj, a), dtype=float) for a in ("weights", "means", "variances")]
+            if not all(np.all(np.isfinite(v)) for v in vis):
+                break           # validity of trained models is C13's subject
+            ref = oracle_ll(*vis, probes)
+            got = np.asarray(obj.log_likelihood(probes))
+            st = obj.acc_stats(probes)
+            if not (np.all(np.isfinite(got)) and np.allclose(got, ref, rtol=1e-9, atol=1e-9)
+                    and abs(float(st.log_likelihood) - float(ref.sum())) <= 1e-8 * max(1.0, abs(float(ref.sum())))):
+                ck.violation("M2:GmmMachine:FreshEquivalent.after_training",
+                             {"mechanism": "M2", "module": "GmmMachine", "seed": seed, "trainer": trainer, "through": how,
+                              "switches": sw, "object": label, "visible_weights": vis[0].tolist(),
+                              "detail": "log_likelihood %s, mixture density of the visible parameters %s"
+                                        % (got.tolist(), ref.tolist())})
+                break
+        else:
+            ck.sample({"mechanism": "M2", "trained": {"seed": seed, "trainer": trainer, "through": how}, "verdict": "ok"}, limit=3)
